@@ -355,3 +355,89 @@ main_c07(void)
     return 0;
 }
 #endif
+
+#if MODE == 5
+/* canonicalise() yields identical tables from collections that differ only by the row order of the non-node tables */
+static void
+build_perm(tsk_table_collection_t *t, const int *mperm, int dfirst, int eswap, int iswap, int pswap, int sswap, double p0, double p1)
+{
+    /* logical rows: A on the root, B below it, C on the leaf, all at logical site 0; D alone at logical site 1 */
+    static const tsk_id_t m_node[3] = { 3, 2, 0 };
+    static const tsk_id_t m_parent[3] = { -1, 0, 1 }; /* logical parent: B->A, C->B */
+    tsk_id_t pos_of[3], j;
+    int ret;
+    char tag;
+    ret = tsk_table_collection_init(t, 0);
+    sym_assume(ret == 0);
+    t->sequence_length = 10;
+    /* populations / individuals / sites in either order; references follow */
+    for (j = 0; j < 2; j++) {
+        tag = (char) ('P' + (pswap ? 1 - j : j));
+        tsk_population_table_add_row(&t->populations, &tag, 1);
+        tag = (char) ('I' + (iswap ? 1 - j : j));
+        tsk_individual_table_add_row(&t->individuals, 0, NULL, 0, NULL, 0, &tag, 1);
+        tag = (char) ('S' + (sswap ? 1 - j : j));
+        tsk_site_table_add_row(&t->sites, (sswap ? 1 - j : j) == 0 ? p0 : p1, "A", 1, &tag, 1);
+    }
+    tsk_node_table_add_row(&t->nodes, 1, 0, pswap ? 1 : 0, iswap ? 1 : 0, "a", 1); /* logical pop P, ind I */
+    tsk_node_table_add_row(&t->nodes, 1, 0, pswap ? 0 : 1, iswap ? 0 : 1, "b", 1); /* logical pop Q, ind J */
+    tsk_node_table_add_row(&t->nodes, 0, 1, -1, -1, "c", 1);
+    tsk_node_table_add_row(&t->nodes, 0, 2, -1, -1, "d", 1);
+    if (eswap) {
+        tsk_edge_table_add_row(&t->edges, 0, 10, 3, 2, NULL, 0);
+        tsk_edge_table_add_row(&t->edges, 0, 10, 2, 0, NULL, 0);
+    } else {
+        tsk_edge_table_add_row(&t->edges, 0, 10, 2, 0, NULL, 0);
+        tsk_edge_table_add_row(&t->edges, 0, 10, 3, 2, NULL, 0);
+    }
+    if (dfirst) {
+        tsk_mutation_table_add_row(&t->mutations, sswap ? 0 : 1, 1, -1, TSK_UNKNOWN_TIME, "G", 1, "N", 1);
+    }
+    for (j = 0; j < 3; j++) {
+        pos_of[mperm[j]] = j + (dfirst ? 1 : 0); /* logical row mperm[j] is stored at this position */
+    }
+    for (j = 0; j < 3; j++) {
+        int lg = mperm[j];
+        tag = (char) ('K' + lg);
+        tsk_mutation_table_add_row(&t->mutations, sswap ? 1 : 0, m_node[lg], m_parent[lg] == -1 ? -1 : pos_of[m_parent[lg]],
+            TSK_UNKNOWN_TIME, "T", 1, &tag, 1);
+    }
+    if (!dfirst) {
+        tsk_mutation_table_add_row(&t->mutations, sswap ? 0 : 1, 1, -1, TSK_UNKNOWN_TIME, "G", 1, "N", 1);
+    }
+}
+
+int
+main_c07(void)
+{
+    static const int perms[6][3] = { { 0, 1, 2 }, { 0, 2, 1 }, { 1, 0, 2 }, { 1, 2, 0 }, { 2, 0, 1 }, { 2, 1, 0 } };
+    tsk_table_collection_t ref, t;
+    tsk_treeseq_t ts;
+    int ret, j, k, p = sym_choice("mperm", 0, 5), dfirst = sym_choice("dfirst", 0, 1);
+    int eswap = sym_choice("eswap", 0, 1), iswap = sym_choice("iswap", 0, 1), pswap = sym_choice("pswap", 0, 1);
+    int sswap = sym_choice("sswap", 0, 1);
+    double p0 = sym_f64_int("p0"), p1 = sym_f64_int("p1");
+
+    sym_assume(p0 >= 0 && p0 < 10 && p1 >= 0 && p1 < 10 && p0 != p1);
+    build_perm(&ref, perms[0], 0, 0, 0, 0, 0, p0, p1);
+    build_perm(&t, perms[p], dfirst, eswap, iswap, pswap, sswap, p0, p1);
+    ret = tsk_table_collection_canonicalise(&ref, 0);
+    sym_assert(ret == 0, "canonicalise (reference order)");
+    ret = tsk_table_collection_canonicalise(&t, 0);
+    sym_assert(ret == 0, "canonicalise (permuted rows)");
+    sym_assert(tsk_table_collection_equals(&ref, &t, 0), "canonicalise gives identical tables whatever the row order of the non-node tables");
+    /* and the canonical form is loadable: sites by position, parents before children */
+    sym_assert(t.sites.position[0] < t.sites.position[1], "canonical sites are in position order");
+    for (j = 0; j < 4; j++) {
+        k = t.mutations.parent[j];
+        sym_assert(k < j, "canonical mutation order lists parents before children");
+    }
+    ret = tsk_treeseq_init(&ts, &t, TSK_TS_INIT_BUILD_INDEXES);
+    sym_assert(ret == 0, "the canonical tables load as a tree sequence");
+    tsk_treeseq_free(&ts);
+    tsk_table_collection_free(&t);
+    tsk_table_collection_free(&ref);
+    SYM_END();
+    return 0;
+}
+#endif
